@@ -79,6 +79,7 @@ std::string prop_generate(Tape & t, int size) {
     std::vector<int> sigs_on_disk;   // signals defined in the file a reader on file 0 sees
     bool wrote_samples = false;      // an fsr write for a defined signal was emitted since the writer was (re)opened
     int data_sig = -1;               // a signal known to hold samples in the file a reader on file 0 sees
+    bool pending_big_short = false;
     int pending_big = -1;            // a big-block signal was just written: follow the rd_open with level-0 statistics requests
     for (int k = 0; k < n; ++k) {
         Call c;
@@ -133,7 +134,7 @@ std::string prop_generate(Tape & t, int size) {
                         if (!wrote_samples) {
                             int id = (int) t.range(1, 12);
                             const DType & dt = DTYPES[t.below(N_DTYPES)];
-                            Call d; d.f = "signal"; d.a = {id, 1, 0, (int64_t) dt.code, 1000, 10, 10, 10, 10, 0, 0}; d.s1 = gen_name(t, "s"); d.s2 = gen_name(t, "u"); push(d);
+                            Call d; d.f = "signal"; d.a = {id, 0, 0, (int64_t) dt.code, 1000, 10, 10, 10, 10, 0, 0}; d.s1 = gen_name(t, "s"); d.s2 = gen_name(t, "u"); push(d);
                             sigs.push_back(id); data_sig = id;
                             Call w; w.f = "fsr"; w.a = {id, -1, t.pick(std::vector<int64_t>{1, 9, 10, 11, 95, 100, 101, 250, 1000, 1005, 3333}), (int64_t) t.raw()}; push(w);
                             wrote_samples = true;
@@ -146,12 +147,14 @@ std::string prop_generate(Tape & t, int size) {
                             const DType & dtb = *dtype_by_name(t.pick(std::vector<std::string>{"u8", "i16", "u4", "f32", "u1", "u32", "i32"}).c_str());
                             int64_t spd = t.pick(std::vector<int64_t>{65544, 70000, 98304, 131072, 524288});
                             int64_t sdf = t.pick(std::vector<int64_t>{8, 64, 4096});
-                            Call d; d.f = "signal"; d.a = {idb, 1, 0, (int64_t) dtb.code, 1000, spd, sdf, 16, 8, 0, 0}; d.s1 = gen_name(t, "b"); d.s2 = gen_name(t, "u"); push(d);
+                            if (t.chance(1, 3)) spd = t.pick(std::vector<int64_t>{524288, 1 << 22, 1 << 24});   // blocks of 2..64 MiB that are never filled
+                            // (spd is final here)
+                            Call d; d.f = "signal"; d.a = {idb, 0, 0, (int64_t) (spd > 200000 && t.chance(1, 2) ? dtype_by_name("f32")->code : dtb.code), 1000, spd, sdf, std::max<int64_t>(16, 2 * spd / sdf), 8, 0, 0};   // entries_per_summary * sdf >= spd, or the block size is aligned down d.s1 = gen_name(t, "b"); d.s2 = gen_name(t, "u"); push(d);
                             sigs.push_back(idb);
                             int64_t left = spd + t.range(1, 40000);
                             if (spd > 200000) left = t.range(100, 5000);   // a block of up to 2 MiB that is never filled: the only DATA chunk is short
                             while (left > 0) { int64_t nn = std::min<int64_t>(left, t.range(30000, 100000)); Call w; w.f = "fsr"; w.a = {idb, -1, nn, (int64_t) t.raw()}; push(w); left -= nn; }
-                            pending_big = idb;
+                            pending_big = idb; pending_big_short = spd > 200000;
                         }
                         Call cl; cl.f = "wr_close"; cl.a = {0}; push(cl);
                         writer_open = false; sigs_on_disk = sigs;
@@ -159,8 +162,10 @@ std::string prop_generate(Tape & t, int size) {
                     c.f = "rd_open"; c.a = {r, file}; rd_open[r] = true;
                     if (pending_big >= 0 && file == 0) {
                         push(c);
-                        if (data_sig >= 0) { Call s1; s1.f = "rd_stats"; s1.a = {r, data_sig, 0, t.range(1, 9), t.range(1, 3), 0}; push(s1); }
-                        Call s2; s2.f = "rd_stats"; s2.a = {r, pending_big, t.range(0, 50), t.pick(std::vector<int64_t>{1, 3, 77, 1000, 70000}), t.range(1, 3), 0};
+                        if (data_sig >= 0) { Call s1; s1.f = "rd_stats"; s1.a = {r, data_sig, 0, 1, 1, 0}; push(s1); }   // always inside: the constructed signal has >= 1 sample
+                        Call s2; s2.f = "rd_stats";
+                        if (pending_big_short) s2.a = {r, pending_big, t.range(0, 20), t.pick(std::vector<int64_t>{1, 3, 7, 50}), 1, 0};   // >= 100 samples on disk
+                        else s2.a = {r, pending_big, t.range(0, 50), t.pick(std::vector<int64_t>{1, 3, 77, 1000, 70000}), t.range(1, 3), 0};
                         c = s2; pending_big = -1;
                     }
                     break;
